@@ -9,8 +9,9 @@
 
    `cfg` makes the reading of array indices explicit.  `strict` is the RFC: an index is "0" or digits without a leading
    zero ("-" only as the add position), the root is the empty pointer, `move` into one's own child is an error.
-   `lenient` is the reading the library implements (iwatoi on any segment, "-" = last element, "/" = root as well,
-   move/copy/swap onto the root ignored): a superset, see patch_strict_lenient in Patch_proofs.v.  No proofs here. *)
+   `lenient` is the reading the library implements ("/" = root as well, move/copy/swap onto the root ignored, move into one's own
+   child; until eca2cba also iwatoi on any segment and "-" = last element: `lenient_idx_old`): a superset, see
+   rfc_op_strict_lenient in Patch_proofs.v.  No proofs here. *)
 Require Import ZArith List Bool. Require Import IW.Lib.CInt IW.UT.Conv IW.JSON.Val. Import ListNotations.
 Local Open Scope Z_scope. Local Open Scope bool_scope.
 
@@ -32,7 +33,11 @@ Definition strict_idx (s : sseg) : option Z :=
     else if forallb is_digit s && (length s <=? 9)%nat then Some (dec_val s) else None
   end.
 Definition strict : cfg := {| c_look := strict_idx; c_ins := strict_idx; c_lenient := false |}.
-Definition lenient : cfg := {| c_look := fun s => Some (atoi s); c_ins := fun s => Some (sw 32 (atoi s)); c_lenient := true |}.
+(* the library's reading since eca2cba: rfc6901 array indices like `strict`; what remains lenient is the root ("/" as well, move /
+   copy / swap / increment onto the root ignored) and move into one's own child *)
+Definition lenient : cfg := {| c_look := strict_idx; c_ins := strict_idx; c_lenient := true |}.
+(* the reading before that repair (iwatoi on any segment, the insertion index cast to int), kept for the theorems that state it *)
+Definition lenient_idx_old : cfg := {| c_look := fun s => Some (atoi s); c_ins := fun s => Some (sw 32 (atoi s)); c_lenient := true |}.
 
 Fixpoint lookup (k : sseg) (ms : list (sseg * jval)) : option jval :=
   match ms with [] => None | (k', v) :: r => if bytes_eqb k' k then Some v else lookup k r end.
@@ -42,8 +47,7 @@ Fixpoint remove_member (k : sseg) (ms : list (sseg * jval)) : list (sseg * jval)
   match ms with [] => [] | (k', v) :: r => if bytes_eqb k' k then r else (k', v) :: remove_member k r end.
 
 Definition aidx (c : cfg) (l : list jval) (s : sseg) : option nat :=
-  if s_is_dash s then
-    (if c_lenient c then match l with [] => None | _ => Some (pred (length l)) end else None)
+  if s_is_dash s then None            (* "-" is the (nonexistent) element after the last one *)
   else match c_look c s with
        | Some i => if (0 <=? i) && (i <? Z.of_nat (length l)) then Some (Z.to_nat i) else None
        | None => None
@@ -235,20 +239,25 @@ Definition set_here (c : cfg) (x : jval) (parent : jval) (s : sseg) : option jva
   | JArr l => match aidx c l s with Some i => Some (JArr (firstn i l ++ x :: skipn (S i) l)) | None => None end
   | _ => None
   end.
-Definition ext_increment (c : cfg) (fadd : Z -> Z -> Z) (fofi ftoi : Z -> Z) (dv : jval) (path : list sseg) (v : jval)
+Definition i64_fits (x : Z) : bool := (- 9223372036854775808 <=? x) && (x <=? 9223372036854775807).
+(* "Value increment": integers exactly (refused when the sum is no int64 or a double operand cannot be cast), doubles by the
+   operations given *)
+Definition num_sum (fadd : Z -> Z -> Z) (fofi ftoi : Z -> Z) (ffits : Z -> bool) (a v : jval) : option jval :=
+  match a, v with
+  | JI64 x, JI64 y => if i64_fits (x + y) then Some (JI64 (x + y)) else None
+  | JI64 x, JF64 y => if ffits y then (if i64_fits (x + ftoi y) then Some (JI64 (x + ftoi y)) else None) else None
+  | JF64 x, JI64 y => Some (JF64 (fadd x (fofi y)))
+  | JF64 x, JF64 y => Some (JF64 (fadd x y))
+  | _, _ => None
+  end.
+Definition ext_increment (c : cfg) (fadd : Z -> Z -> Z) (fofi ftoi : Z -> Z) (ffits : Z -> bool) (dv : jval) (path : list sseg) (v : jval)
   : option jval :=
   match jget c dv path with
-  | Some (JI64 a) => match v with
-                     | JI64 b => jmod c dv path (set_here c (JI64 (sw 64 (a + b))))
-                     | JF64 b => jmod c dv path (set_here c (JI64 (sw 64 (a + ftoi b))))
-                     | _ => None
-                     end
-  | Some (JF64 a) => match v with
-                     | JI64 b => jmod c dv path (set_here c (JF64 (fadd a (fofi b))))
-                     | JF64 b => jmod c dv path (set_here c (JF64 (fadd a b)))
-                     | _ => None
-                     end
-  | _ => None
+  | Some a => match num_sum fadd fofi ftoi ffits a v with
+              | Some r => jmod c dv path (set_here c r)
+              | None => None
+              end
+  | None => None
   end.
 
 (* add x at path, creating empty objects for the missing members on the way (object parents only) *)
@@ -356,22 +365,6 @@ Definition ext_swap (c : cfg) (dv : jval) (from path : list sseg) : option jval 
   | _, _ => None
   end.
 
-(* "Value increment": the sum as the library computes it (int64 two's complement wrap-around, the double operations given) *)
-Definition num_sum (fadd : Z -> Z -> Z) (fofi ftoi : Z -> Z) (a v : jval) : option jval :=
-  match a, v with
-  | JI64 x, JI64 y => Some (JI64 (sw 64 (x + y)))
-  | JI64 x, JF64 y => Some (JI64 (sw 64 (x + ftoi y)))
-  | JF64 x, JI64 y => Some (JF64 (fadd x (fofi y)))
-  | JF64 x, JF64 y => Some (JF64 (fadd x y))
-  | _, _ => None
-  end.
-(* the mathematical reading of "increment" for integers: defined only when the sum is an int64 *)
-Definition int_sum_exact (a v : jval) : option jval :=
-  match a, v with
-  | JI64 x, JI64 y => if (- 9223372036854775808 <=? x + y) && (x + y <? 9223372036854775808) then Some (JI64 (x + y)) else None
-  | _, _ => None
-  end.
-
 (* add_create when the parent of `path` does not resolve: walk from the root; an existing member must be an object, a
    missing one is created as an empty object (appended; the root may also be an array or - without visible effect - a scalar) *)
 Fixpoint create_spec (c : cfg) (v : jval) (p : list sseg) (x : jval) : option jval :=
@@ -445,7 +438,7 @@ Definition lib_swap (c : cfg) (dv : jval) (from path : list sseg) : option jval 
 
 Definition as_add (o : sop) : sop := {| s_op := SAdd; s_path := s_path o; s_from := s_from o; s_val := s_val o |}.
 
-Definition lib_op (c : cfg) (feq : Z -> Z -> bool) (fadd : Z -> Z -> Z) (fofi ftoi : Z -> Z)
+Definition lib_op (c : cfg) (feq : Z -> Z -> bool) (fadd : Z -> Z -> Z) (fofi ftoi : Z -> Z) (ffits : Z -> bool)
                   (d : option jval) (o : sop) : option (option jval) :=
   let path := s_path o in
   match s_op o with
@@ -453,7 +446,7 @@ Definition lib_op (c : cfg) (feq : Z -> Z -> bool) (fadd : Z -> Z -> Z) (fofi ft
   | SIncrement =>
     if s_is_root c path then Some d
     else match s_val o, d with
-         | Some v, Some dv => option_map Some (ext_increment c fadd fofi ftoi dv path v)
+         | Some v, Some dv => option_map Some (ext_increment c fadd fofi ftoi ffits dv path v)
          | _, _ => None
          end
   | SAddCreate =>
@@ -479,11 +472,11 @@ Definition lib_op (c : cfg) (feq : Z -> Z -> bool) (fadd : Z -> Z -> Z) (fofi ft
   | _ => rfc_op c feq d o
   end.
 
-Fixpoint lib_program (c : cfg) (feq : Z -> Z -> bool) (fadd : Z -> Z -> Z) (fofi ftoi : Z -> Z)
+Fixpoint lib_program (c : cfg) (feq : Z -> Z -> bool) (fadd : Z -> Z -> Z) (fofi ftoi : Z -> Z) (ffits : Z -> bool)
                      (d : option jval) (l : list sop) : option (option jval) :=
   match l with
   | [] => Some d
-  | o :: l' => match lib_op c feq fadd fofi ftoi d o with Some d' => lib_program c feq fadd fofi ftoi d' l' | None => None end
+  | o :: l' => match lib_op c feq fadd fofi ftoi ffits d o with Some d' => lib_program c feq fadd fofi ftoi ffits d' l' | None => None end
   end.
 
 (* rfc6901 pointer text -> reference tokens: "" is the whole document; otherwise "/"-separated tokens with ~0 = "~", ~1 = "/";
